@@ -53,9 +53,21 @@ size_t g_lp_c;
 #endif
 #define LP_BUFLEN(in_n) ((in_n) <= LP_NMAX ? (in_n) : 1)
 
+/* Bounded fallback builds (plain cbmc --unwind on the real callees, HOWTO
+ * "Bounded fallback"): the sizes of the payload blocks are the constant caps
+ * instead of arbitrary values below them -- with a symbolic-size heap block
+ * and the real source / sink loops unwound around the stub drivers the
+ * formula does not get through propositional reduction (> 30 GB).  The states
+ * offset <= used <= size stay arbitrary, the blocks stay exact-size. */
+#if defined(VERIF_FALLBACK) && !VERIF_IS_NATIVE
+#define LP_IN_SIZE(name, cap) size_t name = (cap);
+#else
+#define LP_IN_SIZE(name, cap) IN(size_t, name)
+#endif
+
 /* a byte buffer in any state offset <= used <= size <= LP_NMAX */
 #define LP_BUFFER(b) \
-  IN(size_t, in_size) IN(size_t, in_used) IN(size_t, in_offset) \
+  LP_IN_SIZE(in_size, LP_NMAX) IN(size_t, in_used) IN(size_t, in_offset) \
   LP_FOLD(in_size, 1, LP_NMAX) LP_FOLD(in_used, 0, in_size) LP_FOLD(in_offset, 0, in_used) \
   ASSUME(in_size >= 1 && in_size <= LP_NMAX && in_offset <= in_used && in_used <= in_size); \
   IN_MEM(in_data, in_size) \
@@ -177,7 +189,7 @@ void h_flenp_buffer_encode_n(void)
 #define LP_CHUNK_NMAX 4096
 #endif
 #define LP_ONE_CHUNK(i) \
-  IN(size_t, in_size##i) IN(size_t, in_used##i) IN(size_t, in_offset##i) \
+  LP_IN_SIZE(in_size##i, LP_CHUNK_NMAX) IN(size_t, in_used##i) IN(size_t, in_offset##i) \
   LP_FOLD(in_size##i, 0, LP_CHUNK_NMAX) LP_FOLD(in_used##i, 0, in_size##i) LP_FOLD(in_offset##i, 0, in_used##i) \
   ASSUME(in_size##i <= LP_CHUNK_NMAX && in_offset##i <= in_used##i && in_used##i <= in_size##i); \
   IN_MEM(in_data##i, in_size##i) \
